@@ -56,6 +56,13 @@ def uses_abstract(z, _seen=None):
     return None
 
 
+def abstract_const(z):
+    """unconstrained message-like constants (f-strings, str(x), ...): nothing to compare.  Terms built from
+    uninterpreted functions are evaluated under the model instead (stubs answer natively with the same value)."""
+    nm = uses_abstract(z)
+    return bool(nm) and nm.startswith(ABSTRACT_PREFIXES)
+
+
 class Concretizer:
     def __init__(self, model, state, engine):
         self.m, self.st, self.ex = model, state, engine
@@ -113,25 +120,25 @@ class Concretizer:
         if v is VNone:
             return {'t': 'none'}
         if isinstance(v, VInt):
-            if uses_abstract(v.z):
+            if abstract_const(v.z):
                 return {'t': 'any'}
             return {'t': 'int', 'v': self.ev(v.z).as_long()}
         if isinstance(v, VBool):
-            if uses_abstract(v.z):
+            if abstract_const(v.z):
                 return {'t': 'any'}
             return {'t': 'bool', 'v': z3.is_true(self.ev(v.z))}
         if isinstance(v, VBytes):
-            if uses_abstract(v.z):
+            if abstract_const(v.z):
                 return {'t': 'any'}
             els = [self.ev(e).as_long() for e in self.seq_elems(v.z)]
             els = [min(max(x, 0), 255) for x in els]
             return {'t': 'bytes', 'v': bytes(els).hex(), 'mutable': bool(v.mutable)}
         if isinstance(v, VStr):
-            if uses_abstract(v.z):
+            if abstract_const(v.z):
                 return {'t': 'any'}
             return {'t': 'str', 'v': _z3str(self.ev(v.z))}
         if isinstance(v, VPy):
-            if uses_abstract(v.z):
+            if abstract_const(v.z):
                 return {'t': 'any'}
             return self.enc_pyobj(self.ev(v.z))
         if isinstance(v, VOpt):
@@ -150,7 +157,7 @@ class Concretizer:
             return {'t': 'set', 'v': sorted((self.enc(wrap(k)) for k in v.items), key=repr)}
         if isinstance(v, VSymSet):
             # symbolic set: the members among the keys this path ever tested / added (other members are irrelevant)
-            if uses_abstract(v.z):
+            if abstract_const(v.z):
                 return {'t': 'any'}
             items, seen = [], set()
             for kz in self.st.heap.get('__setkeys__', ()):
@@ -164,7 +171,7 @@ class Concretizer:
                     items.append(self.enc(from_z3(kv, v.elem), heap))
             return {'t': 'set', 'v': sorted(items, key=repr)}
         if isinstance(v, VReal):
-            if uses_abstract(v.z):
+            if abstract_const(v.z):
                 return {'t': 'any'}
             val = self.ev(v.z)
             from fractions import Fraction
@@ -422,6 +429,10 @@ REAL_IMPLS = {
     'wsplit_f': lambda x, k, i: (bytes(x).split(None, k)[i] if 0 <= i < len(bytes(x).split(None, k)) else None)
     if k >= 0 else None,
     'iota': lambda lo, hi: bytes(range(lo, hi)) if (hi <= lo or (0 <= lo and hi <= 256)) else None,
+    # RFC 4251 mpint (two's complement, minimal, uint32 length prefix) for |v| < 2**4096
+    'mpint': lambda v: (lambda n: n.to_bytes(4, 'big') + v.to_bytes(n, 'big', signed=True))(
+        (v.bit_length() + 8) // 8 if v > 0 else ((v + 1).bit_length() + 8) // 8 if v < 0 else 0)
+    if abs(v) < (1 << 4096) else None,
     'upper_b': lambda b: bytes(b).upper(),
     'lower_s': lambda s_: s_.lower(), 'strip_s': lambda s_: s_.strip(),
     'int_literal_ok_s': lambda s_: _int_literal(s_) is not None,
